@@ -451,6 +451,7 @@ def new_ltf_plan(**args):
         
         # If only one segment possible, use the full data length
         nseg = int(np.round((N - dftlen) / (xov * dftlen) + 1))
+        nseg = min(nseg, N - dftlen + 1)  # only N - L + 1 distinct positions
         if nseg == 1:
             dftlen = N
 
